@@ -758,10 +758,53 @@ func checkBuilders(r *ev.Run) {
 	}
 }
 
+// checkBuildersSignedZero: the builders de-duplicate vertices by value, and 0 == -0. Every sequence of up to four
+// faces over vertices that occur with zeros of either sign (the same point written three ways, and a new vertex after
+// each switch of sign): every face must still be referenced once, with in-range indices, at its own coordinates
+// (compared by value, so either sign of a zero is accepted in the output).
+func checkBuildersSignedZero(r *ev.Run) {
+	nz := negZero
+	a, a1, a2 := model3d.XYZ(0, 0, 0), model3d.XYZ(0, 0, nz), model3d.XYZ(nz, nz, 0)
+	b, c0, c1, d, e := model3d.XYZ(1, 0, 0), model3d.XYZ(0, 1, 0), model3d.XYZ(nz, 1, 0), model3d.XYZ(0, 0, 1), model3d.XYZ(2, nz, 1)
+	pool := []*model3d.Triangle{{a, b, c0}, {a1, b, d}, {a2, c1, d}, {b, c1, d}, {a, c0, e}, {a1, e, b}}
+	var seqs [][]int
+	var rec func(cur []int)
+	rec = func(cur []int) {
+		if len(cur) > 0 {
+			seqs = append(seqs, append([]int{}, cur...))
+		}
+		if len(cur) == 4 {
+			return
+		}
+		for i := range pool {
+			rec(append(cur, i))
+		}
+	}
+	rec(nil)
+	for _, sq := range seqs {
+		var tris []*model3d.Triangle
+		var faces [][3]int
+		for _, i := range sq {
+			t := *pool[i]
+			tris = append(tris, &t)
+			faces = append(faces, [3]int{i, i, i})
+		}
+		r.Eval(2)
+		c := meshCase{"builders-signed-zero (entries are indices into the face pool)", faces}
+		checkOBJ(r, "BuildVertexColorOBJ", model3d.BuildVertexColorOBJ(tris, func(model3d.Coord3D) [3]float64 { return [3]float64{0.5, 0.5, 1} }), tris, c)
+		o2, _ := model3d.BuildMaterialOBJ(tris, func(t *model3d.Triangle) [3]float64 { return [3]float64{math.Abs(t[1].X), 0.25, 0.5} })
+		checkOBJ(r, "BuildMaterialOBJ", o2, tris, c)
+	}
+	r.NontrivialAdd(len(seqs))
+	r.Set("builder_signed_zero_sequences", len(seqs))
+}
+
 func checkOBJ(r *ev.Run, name string, o *fileformats.OBJFile, tris []*model3d.Triangle, c meshCase) {
+	// faces are compared by value: adding 0 turns -0 into +0 and changes nothing else
+	pz := func(a [3]float64) [3]float64 { return [3]float64{a[0] + 0, a[1] + 0, a[2] + 0} }
 	want := map[string]int{}
 	for _, t := range tris {
-		want[fmt.Sprint(t[0].Array(), t[1].Array(), t[2].Array())]++
+		want[fmt.Sprint(pz(t[0].Array()), pz(t[1].Array()), pz(t[2].Array()))]++
 	}
 	got := map[string]int{}
 	n := 0
@@ -777,7 +820,7 @@ func checkOBJ(r *ev.Run, name string, o *fileformats.OBJFile, tris []*model3d.Tr
 				}
 				vs[k] = o.Vertices[idx-1]
 			}
-			got[fmt.Sprint(vs[0], vs[1], vs[2])]++
+			got[fmt.Sprint(pz(vs[0]), pz(vs[1]), pz(vs[2]))]++
 		}
 	}
 	if n != len(tris) {
@@ -838,6 +881,6 @@ func main() {
 	})
 	r.Isolate("csv-text", func() { checkCSV(r); checkTextFormats(r) })
 	r.Isolate("generic-ply", func() { enumGenericPLY(r, r.Thorough()) })
-	r.Isolate("builders", func() { checkBuilders(r) })
+	r.Isolate("builders", func() { checkBuilders(r); checkBuildersSignedZero(r) })
 	r.Finish()
 }
